@@ -217,7 +217,8 @@ def expr(draw, w, depth=3, mem=True, ops_extra=True):
             pos += pw
         return ["compose", out]
     if kind == "mem" and mem and w >= 8:
-        return ["mem", draw(expr(32, d, mem=False)), w, draw(st.sampled_from(SEGS))]
+        # one time in three the address itself reads memory (pointer chasing)
+        return ["mem", draw(expr(32, d, mem=(draw(st.integers(0, 2)) == 0))), w, draw(st.sampled_from(SEGS))]
     if kind == "uninterp" and ops_extra and w >= 8:
         op = draw(st.sampled_from(["fadd", "MMX", "opaque"]))
         return ["op", op, [draw(expr(w, d, mem)), draw(expr(w, d, mem))]]
